@@ -181,7 +181,20 @@ def observe(case, with_meta=False):
         return TestStudent(ref, *others, name='c05', alpha=alpha, ndf=ndf).evaluate()
     sc = float(case.get('scale', 1.0))
     try:
-        res = test(dataset(case['ref'], sc), [dataset(o, sc) for o in case['oth']])
+        prev = case.get('after')
+        if prev and shape != ():
+            # the same Dataset and TestStudent objects served another comparison before: their arrays are then overwritten
+            # in place with the numbers of this case, and the test is evaluated again
+            objs = [dataset(prev['ref'], sc)] + [dataset(o, sc) for o in prev['oth']]
+            tst = TestStudent(objs[0], *objs[1:], name='c05', alpha=alpha, ndf=ndf)
+            tst.evaluate()
+            for obj, cells in zip(objs, [case['ref']] + list(case['oth'])):
+                fresh = dataset(cells, sc)
+                obj.value[...] = fresh.value
+                obj.error[...] = fresh.error
+            res = tst.evaluate()
+        else:
+            res = test(dataset(case['ref'], sc), [dataset(o, sc) for o in case['oth']])
         verdict = bool(res)
         orc, pdec_raw, pval, tstud = res.oracles(), res.test_pvalue(), res.pvalue, res.tstud
     except Exception as ex:  # pylint: disable=broad-except
@@ -247,6 +260,8 @@ def vkey(what, case, d=None, i=None, expected=None, obs=None):
         ndfc += '/rescaled-%s' % ('tiny' if case['scale'] < 1 else 'huge')
     if case.get('layout', 'C') != 'C':
         ndfc += '/noncontiguous'
+    if case.get('after'):
+        ndfc += '/objects-reused'
     if what == 'raises':
         return 'C05/raises/%s/%s' % (ndfc, 'scalar' if not case['shape'] else '%dd' % len(case['shape']))
     if what == 'pdec' and obs is not None and obs.get('pdec_form') != 'full':
@@ -328,6 +343,7 @@ def _distinct_key(st):
 def _replay_blocks(blocks):
     """Worker: parse dumped states, run them on the implementation in every shape, compare."""
     res = dict(n=0, evals=0, bad=[], drift=[], skipped=0, free=0, distinct=set(), samples=[])
+    last = {}          # (bins, datasets) -> numbers of the previous state of that form
     for blk in blocks:
         st = parse_state(blk)
         out = _plain(st['out'])
@@ -344,10 +360,20 @@ def _replay_blocks(blocks):
         multi = [sh for sh in shapes_for(nb) if len(sh) >= 2 and min(sh) >= 1 and int(np.prod(sh)) > 1]
         if multi:
             variants.append((multi[-1], 'float', -1.0))       # marker: the same arrays as transposed (non-contiguous) views
+        form = (nb, len(st['oth']))
+        if last.get(form):
+            variants.append((shapes_for(nb)[-1], 'float', -2.0))  # marker: on the objects that served an earlier state
         for k, (shape, dtype, scale) in enumerate(variants):
             case = case_of_state(st, shape, dtype)
             if scale == -1.0:
                 case['layout'] = 'T'
+            elif scale == -2.0:
+                if not shape:
+                    continue
+                pool = [p for p in last[form] if p['ref'] != case['ref'] or p['oth'] != case['oth']]
+                if not pool:
+                    continue
+                case['after'] = pool[(res['n'] * 7919) % len(pool)]
             elif scale != 1.0:
                 case['scale'] = scale
             LAYOUT[0] = case.get('layout', 'C')
@@ -370,6 +396,12 @@ def _replay_blocks(blocks):
             for what, d, i, exp in drift[:1]:
                 res['drift'].append('result.tstud of %s: dataset %d bin %d observed %s, Student.tla has %s'
                                     % (case, d, i, obs['ts'][d - 1][i - 1], exp))
+            if k == 0:
+                nums = dict(ref=case['ref'], oth=case['oth'])
+                pool = last.setdefault(form, [])
+                if nums not in pool[-3:]:
+                    pool.append(nums)
+                    del pool[:-40]
             if k == 0 and len(res['samples']) < 1 and res['n'] % 97 == 1:
                 res['samples'].append(dict(case=case, expected=dict(verdict=out['verdict'], cls=out['cls']),
                                            observed=dict(verdict=obs['verdict'], oracles=obs['orc'], test_pvalue=obs['pdec_raw'])))
